@@ -8,7 +8,9 @@
 (* judgement is made here, by TLC evaluating the operators of Algebra.tla. *)
 (*                                                                         *)
 (* line kinds (field k):                                                   *)
-(*  rot     word, vs, q, res, seq, ex      quaternion built along a word   *)
+(*  rot     word, vs, q, res, seq, arr, ex quaternion built along a word   *)
+(*          (arr: the same vectors through Quaternion.RotateArray; also in *)
+(*          rotax / rotq lines)                                            *)
 (*  rotax   ax, c2, sg, vs, q, res, ex     FromTheta about a lattice axis  *)
 (*  rotq    axis, cn, sn, hy, vs, q, res, ex  FromTheta, rational sin/cos  *)
 (*          (res, seq in units of 1/q; q chosen by the harness so that     *)
@@ -76,8 +78,9 @@ RotBad(ln, m, h) ==
 LenBad(ln) ==
     ~AllSmall(ln.res) \/ \E i \in DOMAIN ln.vs : V3Len2(ln.res[i]) # ln.q * ln.q * V3Len2(ln.vs[i])
 
+\* arr: the same vectors through Quaternion.RotateArray (an API variant of Rotate) must give the same images
 JudgeRot(ln) ==
-    [bad |-> If(RotBad(ln, WordMat(ln.word), 1), "C17.QuatRotate")
+    [bad |-> If(RotBad(ln, WordMat(ln.word), 1) \/ ln.arr # ln.res, "C17.QuatRotate")
              \cup If(LenBad(ln), "C17.QuatLength")
              \cup If(~ln.ex \/ ln.seq # ln.res, "C17.QuatCompose"),
      ex |-> {"C17.QuatRotate", "C17.QuatLength"} \cup If(Len(ln.word) >= 2, "C17.QuatCompose")]
@@ -85,14 +88,15 @@ JudgeRot(ln) ==
 JudgeRotAx(ln) ==
     LET ms == RotAboutSet(ln.ax, ln.c2, ln.sg) IN
     IF Cardinality(ms) # 1 THEN [bad |-> {"Harness.Shape"}, ex |-> {}]
-    ELSE [bad |-> If(RotBad(ln, CHOOSE m \in ms : TRUE, 1), "C17.QuatAxisAngle") \cup If(LenBad(ln), "C17.QuatLength"),
-          ex |-> {"C17.QuatAxisAngle", "C17.QuatLength"}]
+    ELSE [bad |-> If(RotBad(ln, CHOOSE m \in ms : TRUE, 1), "C17.QuatAxisAngle") \cup If(LenBad(ln), "C17.QuatLength")
+                  \cup If(ln.arr # ln.res, "C17.QuatRotate"),
+          ex |-> {"C17.QuatAxisAngle", "C17.QuatLength", "C17.QuatRotate"}]
 
 JudgeRotQ(ln) ==
     IF ln.cn * ln.cn + ln.sn * ln.sn # ln.hy * ln.hy THEN [bad |-> {"Harness.Shape"}, ex |-> {}]
     ELSE [bad |-> If(~AllSmall(ln.res) \/ RotBad(ln, RotQ(ln.axis, ln.cn, ln.sn, ln.hy), ln.hy), "C17.QuatAxisAngle")
-                  \cup If(LenBad(ln), "C17.QuatLength"),
-          ex |-> {"C17.QuatAxisAngle", "C17.QuatLength"}]
+                  \cup If(LenBad(ln), "C17.QuatLength") \cup If(ln.arr # ln.res, "C17.QuatRotate"),
+          ex |-> {"C17.QuatAxisAngle", "C17.QuatLength", "C17.QuatRotate"}]
 
 \* r = round(4096 * RotationTo(a^,b^).Rotate(a^)) must point along b and have length 4096 (coarse, all
 \* integer); res = (that vector - b^) * 10^12 must vanish up to relative 1e-9 (fine)
